@@ -15,6 +15,10 @@ REQUIRED_FAULTS = ["F4.damaged_file", "F6.eio_on_open", "F6.vanish_after_exists"
                    "F10.net_refused", "F10.net_http503", "F10.net_disconnect", "F10.net_timeout", "F10.net_body_cut"]
 NET_FAULTS = ["refused", "http503", "disconnect", "timeout", "body_cut"]
 MACHINES = ["M-CD"]
+ASSUMPTIONS = [
+    "one run in five addresses the compose by URL on a simulated host: the peer is in-process (no sockets, no TLS); what is real there is productmd's own URL handling, urllib's Request/urlopen entry and http.client.HTTPResponse parsing; redirects, proxies, authentication and real TLS failures are not simulated",
+    "under a fired network fault the oracle only excludes metadata that is in none of the candidate files (how a network failure surfaces is not specified by the property); the access after the fault is judged in full",
+]
 
 ATTRS = ["info", "images", "rpms", "modules"]
 NAMES = {"info": [("composeinfo.json", "composeinfo")],
